@@ -71,6 +71,27 @@ Proof. exact runs_auth_legit. Qed.
 Theorem C02_changing_store_good : forall bname async segs, Good (vouched segs) async (runs bname async segs).
 Proof. exact runs_good. Qed.
 
+(* ---- the same for the code as TRANSLATED from the Python source on every run (harness/pytrans3.py -> BrokerGen.v):
+   run_src is the event loop with the translated Server.subscribe/unsubscribe/publish and Connection.on_publish/
+   on_subscribe/on_unsubscribe/authenticate/connection_lost/message_received plugged in; BrokerGenRun.run_src_eq proves it
+   equal to the model.  These theorems rely on functional_extensionality_dep (Coq standard library) and nothing else. *)
+From HP Require Import PyBroker BrokerGen BrokerGenEq BrokerGenRun BrokerGenProps.
+Theorem C02_src_run_is_model : forall bname store async_store h, run_src bname store async_store h = run bname store async_store h.
+Proof. exact run_src_eq. Qed.
+Theorem C02_src_auth_legit : forall bname store async_store h q i r, last_auth (alog (run_src bname store async_store h)) q = Some (i, r) ->
+  exists l1 dg t n, alog (run_src bname store async_store h) = l1 ++ AAuth q i r dg :: t /\ conn_nonce t q = Some n /\
+    dg = sha1 (n ++ r_secret r) /\ (async_store = false -> store i = LRow r).
+Proof. exact src_auth_legit. Qed.
+Theorem C02_src_acted_on_after_auth : forall bname store async_store h l1 a t, alog (run_src bname store async_store h) = l1 ++ a :: t ->
+  match a with ASub q _ | AUnsub q _ | APub q _ _ _ => last_auth t q <> None | _ => True end.
+Proof. exact src_acted_on_after_auth. Qed.
+Theorem C02_src_preauth_reject : forall sup q op body s, ak (conns s q) = None -> op <> 2%Z -> Connection_message_received sup q op body s = BOk false (bad q s).
+Proof. exact src_preauth_reject. Qed.
+Theorem C02_src_unknown_ident_reject : forall pp q i dg s, Connection_authenticate pp q i dg LNone s = BOk false (bad q s).
+Proof. exact src_unknown_ident_reject. Qed.
+Theorem C02_src_wrong_digest_reject : forall pp q i dg r s, dg <> sha1 (nonce (conns s q) ++ r_secret r) -> Connection_authenticate pp q i dg (LRow r) s = BOk false (bad q s).
+Proof. exact src_wrong_digest_reject. Qed.
+
 Print Assumptions C02_info_first.
 Print Assumptions C02_acted_on_after_auth.
 Print Assumptions C02_auth_legit.
@@ -81,3 +102,9 @@ Print Assumptions C02_wrong_digest_reject.
 Print Assumptions C02_refusal_effect.
 Print Assumptions C02_changing_store_auth_legit.
 Print Assumptions C02_changing_store_good.
+Print Assumptions C02_src_run_is_model.
+Print Assumptions C02_src_auth_legit.
+Print Assumptions C02_src_acted_on_after_auth.
+Print Assumptions C02_src_preauth_reject.
+Print Assumptions C02_src_unknown_ident_reject.
+Print Assumptions C02_src_wrong_digest_reject.
